@@ -12,6 +12,16 @@ def _init(repo_root):
         os.dup2(devnull.fileno(), 2)
     except Exception:
         pass
+    # import the code under check BEFORE any per-job alarm can fire: an alarm that interrupts an import leaves half-initialised
+    # modules behind and every later import in that worker fails (seen once on a loaded machine: checker crash, exit 3)
+    import importlib
+    for m in ('graphtage', 'graphtage.expressions', 'graphtage.constraints', 'graphtage.pydiff', 'graphtage.fibonacci',
+              'graphtage.matching', 'graphtage.search', 'graphtage.levenshtein', 'graphtage.bounds', 'graphtage.builder',
+              'graphtage.__main__', 'yaml', 'numpy'):
+        try:
+            importlib.import_module(m)
+        except BaseException:
+            pass        # (a tree that does not import is reported by the jobs themselves)
 
 
 class _Timed:
